@@ -70,7 +70,7 @@ func BuildDrivers(g *Gocc, grammars []*corpus.Grammar, variants []Variant, race 
 	if err := os.WriteFile(filepath.Join(d.Dir, "go.mod"), []byte("module "+DrvModule+"\n\ngo 1.24\n"), 0o644); err != nil {
 		return nil, err
 	}
-	for _, p := range []string{"gsim", "act", "harness"} {
+	for _, p := range []string{"gsim", "gsync", "act", "harness"} {
 		if err := scratch.CopyInject(p, filepath.Join(d.Dir, p), DrvModule); err != nil {
 			return nil, err
 		}
@@ -183,6 +183,7 @@ func BuildDrivers(g *Gocc, grammars []*corpus.Grammar, variants []Variant, race 
 			Patterns:  []string{"./gen/..."},
 			OwnPrefix: DrvModule + "/gen/",
 			RTImport:  DrvModule + "/gsim",
+			Redirect:  map[string]string{"sync": DrvModule + "/gsync"},
 			StepFunc:  "Yield",
 			StepArg:   true,
 			StmtSteps: StmtYields,
@@ -198,7 +199,7 @@ func BuildDrivers(g *Gocc, grammars []*corpus.Grammar, variants []Variant, race 
 				return nil, fmt.Errorf("WORKLOAD-INVALID: generated code cannot be loaded/instrumented: %v", err)
 			}
 			if len(d.List) > 0 {
-				c, err = rewrite.Instrument(rewrite.Options{Dir: d.Dir, Patterns: []string{"./gen/..."}, OwnPrefix: DrvModule + "/gen/", RTImport: DrvModule + "/gsim",
+				c, err = rewrite.Instrument(rewrite.Options{Dir: d.Dir, Patterns: []string{"./gen/..."}, OwnPrefix: DrvModule + "/gen/", RTImport: DrvModule + "/gsim", Redirect: map[string]string{"sync": DrvModule + "/gsync"},
 					StepFunc: "Yield", StepArg: true, StmtSteps: StmtYields, KnobConst: "iNITIAL_STACK_SIZE", Env: scratch.GoEnv()})
 				if err != nil {
 					return nil, fmt.Errorf("WORKLOAD-INVALID: generated code cannot be loaded/instrumented: %v", err)
